@@ -1,0 +1,24 @@
+// Tencent is pleased to support the open source community by making trpc-mcp-go available.
+//
+// Copyright (C) 2025 Tencent.  All rights reserved.
+//
+// trpc-mcp-go is licensed under the Apache License Version 2.0.
+
+package mcp
+
+import (
+	"fmt"
+	"math"
+	"strconv"
+)
+
+// requestIDKey renders a JSON-RPC request id as the key under which a pending request is
+// tracked. Locally generated ids are int64 while the same id decoded from a JSON message is a
+// float64; "%v" prints the latter in exponent form from 1e6 on ("1e+06"), so the two renderings
+// stop matching. Integral floats are therefore rendered as integers.
+func requestIDKey(id interface{}) string {
+	if f, ok := id.(float64); ok && f == math.Trunc(f) && math.Abs(f) < 1<<63 {
+		return strconv.FormatInt(int64(f), 10)
+	}
+	return fmt.Sprintf("%v", id)
+}
